@@ -3,6 +3,7 @@ package main
 import (
 	_ "verif/harness/c11"
 	_ "verif/harness/c12"
+	_ "verif/harness/c13"
 	_ "verif/harness/c14"
 	_ "verif/harness/c17"
 	_ "verif/harness/c20"
